@@ -131,6 +131,15 @@ CHECKS = {
               'longest path for Viterbi, reachability for Bool); multi_mv with the dense product; arguments are snapshotted (bytes and _version). '
               'Hooks count LU-accepted vs Gauss-Jordan-fallback runs and the distinct elimination orders. One open finding (critical systems).'),
         design_ref='DESIGN.md §4 C09'),
+    'C11': dict(
+        technique='differential monitor across method x j_precompute x dtype x semiring in-process and across python/-O/-OO subprocesses and bin/sum_product.py -OO, each side also judged against the reference (runtime monitoring)',
+        text=('Runtime monitoring: each generated grammar with finite Z (all recursion classes, incl. rules with >= 3 edges and a node private to the '
+              'first ones, edgeless nodes) is solved by the real library under every admissible method x j_precompute x float32/float64 x Real/Log '
+              'with values and gradients compared to the independent reference (so the wrong side is named), the Bool/Viterbi results are checked '
+              'against the support / the Log value, the same seeded batch is executed by python, python -O and python -OO subprocesses whose '
+              'hex-dumped results must agree to 1e-12, and bin/sum_product.py is run under -OO on generated JSON files and compared with the '
+              'reference. Hooks prove that both J and J_precompute_products ran. One open finding: j_precompute=True (D6).'),
+        design_ref='DESIGN.md §4 C11'),
 }
 
 NOT_BUILT = {}
